@@ -12,7 +12,8 @@ import numpy as np
 def make_case(rng):
     return dict(variant=str(rng.choice(["linear", "linear_real_only"])), window=int(rng.randint(1, 4)), rate=float(rng.choice([4.0, 8.0, 16.0])),
                 dmax=float(rng.choice([0.125, 0.25, 0.5])), frac=float(rng.choice([0.0, 0.25, 0.5, 0.8, 1.0])), shape=[int(x) for x in [(), (3,), (2, 2), (1,)][int(rng.randint(0, 4))]],
-                offset=float(rng.choice([0.0, 0.01, 0.03])), key=int(rng.randint(0, 1000)))
+                offset=float(rng.choice([0.0, 0.01, 0.03])), key=int(rng.randint(0, 1000)),
+                dtype=str(rng.choice(["float32", "float32", "float16"])), t0=float(rng.choice([0.0, 20.0])))
 
 
 def run_case(case):
@@ -23,8 +24,9 @@ def run_case(case):
     W, rate = case["window"], case["rate"]
     C = W + dist.window(rate)
     rs = np.random.RandomState(case["key"])
-    ts = np.arange(C) / rate
-    data = rs.normal(size=(C,) + tuple(case["shape"])).astype(np.float32)
+    ts = case.get("t0", 0.0) + np.arange(C) / rate         # also late in an episode, where narrow float types resolve time coarsely
+    dt = getattr(np, case.get("dtype", "float32"))
+    data = rs.normal(size=(C,) + tuple(case["shape"])).astype(dt)      # payload leaves may be narrower than the timestamps
     inp = InputState(seq=jnp.arange(C), ts_sent=jnp.array(ts, dtype=jnp.float32), ts_recv=jnp.array(ts, dtype=jnp.float32), data=jnp.array(data), delay_dist=dist)
     ts_start = float(ts[-1] + d_val + case["offset"])      # all messages have arrived: steady state
     out = dist.apply_delay(rate, inp, ts_start)
@@ -34,9 +36,12 @@ def run_case(case):
         return [f"result shape {got.shape} != {(W,) + tuple(case['shape'])}"], 1
     knots = ts + d_val
     q = knots[C - W:] + (ts_start - knots[C - 1])
-    flat = data.reshape(C, -1)
+    flat = data.reshape(C, -1).astype(np.float64)
     ref = np.stack([np.interp(q, knots, flat[:, j]) for j in range(flat.shape[1])], axis=1).reshape((W,) + tuple(case["shape"]))
-    if not np.allclose(got, ref, atol=2e-4):
+    tol = 2e-4 if dt is np.float32 else 6e-3          # the result is cast back to the payload's dtype: one rounding of that type is allowed
+    if got.dtype != dt:
+        bad.append(f"result dtype {got.dtype} != payload dtype {np.dtype(dt)}")
+    if not np.allclose(got.astype(np.float64), ref, atol=tol):
         bad.append(f"payload differs from the piecewise-linear signal: got {got.reshape(W, -1)[:, :3].tolist()} want {ref.reshape(W, -1)[:, :3].tolist()}")
     lo = np.minimum(flat[C - W - 1:C - 1], flat[C - W:]).reshape((W,) + tuple(case["shape"])) if C - W - 1 >= 0 else None
     return bad, W * max(1, int(np.prod(case["shape"])))
@@ -68,6 +73,7 @@ def main():
     cases = [make_case(rng) for _ in range(a.n)]
     cases[0].update(shape=[3], window=3, variant="linear")
     cases[1 % len(cases)].update(shape=[2, 2], window=2, variant="linear_real_only")
+    cases[2 % len(cases)].update(dtype="float16", t0=20.0, window=2, shape=[3], variant="linear", rate=16.0, dmax=0.25, frac=0.5)
     res = dict(cases=0, checks=0, bad_cases=[], samples=[], distinct=len({json.dumps(c, sort_keys=True) for c in cases}), errors=[])
     for case in cases:
         out = _safe(case)
